@@ -77,3 +77,13 @@ impl RoundTrip for VotingProcedure {
         assert(x == (VotingProcedure { vote: x.vote, anchor: x.anchor }));
     }
 }
+pub open spec fn RedeemerTagKind_dec(rem: Seq<Tok>) -> Option<(RedeemerTagKind, int)> {
+    if rem.len() > 0 && rem[0] is UInt && rem[0]->UInt_0 <= 5 {
+        let v = rem[0]->UInt_0;
+        Some((if v == 0 { RedeemerTagKind::Spend } else if v == 1 { RedeemerTagKind::Mint } else if v == 2 { RedeemerTagKind::Cert } else if v == 3 { RedeemerTagKind::Reward }
+              else if v == 4 { RedeemerTagKind::Vote } else { RedeemerTagKind::VotingProposal }, 1int))
+    } else { None }
+}
+impl RoundTrip for RedeemerTagKind {
+    proof fn lemma_rt(x: Self, rest: Seq<Tok>) { let rem = x.enc() + rest; assert(x.enc() =~= RedeemerTagKind_enc(x)); assert(rem[0] == RedeemerTagKind_enc(x)[0]); assert(Self::dec(rem) == RedeemerTagKind_dec(rem)); }
+}
